@@ -96,3 +96,16 @@ Proof. vm_compute. reflexivity. Qed.
 Example C01_F1_outside :
   c01_hyps [SFor None (Some 1) (Some (SYield 2)) [SIf None 3 [SContinue] ENone; SYield 4]] = false.
 Proof. vm_compute. reflexivity. Qed.
+(* a switch whose yield-free clauses leave by break or fall through, next to a yielding clause *)
+Example C01_hyps_hold_7 :
+  c01_hyps [SFor None (Some 1) None
+              [SSwitch None (Some 2) [(LVals [3], [SAtom 4; SIf None 5 [SBreak] ENone; SAtom 6]);
+                                      (LVals [7], [SAtom 8; SFallthrough]);
+                                      (LVals [9], [SYield 10; SAtom 11]);
+                                      (LDefault, [SBreak])];
+               SYield 12]] = true.
+Proof. vm_compute. reflexivity. Qed.
+(* ... and a break after a yield in the same clause is outside (finding F2) *)
+Example C01_F2_outside :
+  c01_hyps [SSwitch None (Some 1) [(LVals [2], [SYield 3; SBreak])]; SYield 4] = false.
+Proof. vm_compute. reflexivity. Qed.
